@@ -10,6 +10,9 @@ extern int env_alloc_fail_enabled;
 extern unsigned env_alloc_calls, env_alloc_failed;
 
 /* ---- 1: building a message --------------------------------------------------------------------------------------------- */
+#ifndef BUILD_VARIANT
+#define BUILD_VARIANT 0
+#endif
 VERIF_HARNESS(c18_build) {
   VERIF_IN_BUF(tok, 4);
   VERIF_IN_BUF(v1, 4);
@@ -29,9 +32,14 @@ VERIF_HARNESS(c18_build) {
   }
   if (coap_add_token(pdu, 4, tok)) m.tkl = 4;
   if (coap_add_option(pdu, 11, 3, v1)) model_insert(&m, 11, 3, v1);
+#if BUILD_VARIANT == 0
   /* 252-byte option: together with the rest it exceeds the initial 256-byte allocation and forces the buffer to grow (realloc) */
   if (coap_add_option(pdu, 2049, 252, big)) model_insert(&m, 2049, 252, big);
-  if (coap_add_option(pdu, 12, 1, v1)) model_insert(&m, 12, 1, v1);        /* out of order: insert path */
+#else
+  /* out of order (insert path) with a value that no longer fits the initial 256-byte allocation */
+  if (coap_add_option(pdu, 2049, 100, big)) model_insert(&m, 2049, 100, big);
+  if (coap_insert_option(pdu, 12, 150, big)) model_insert(&m, 12, 150, big);
+#endif
   if (coap_add_data(pdu, 2, v1)) { m.plen = 2; m.pl = v1; }
   /* whatever failed was refused cleanly: the message is exactly what was accepted */
   model_check_pdu(pdu, &m);
